@@ -181,8 +181,8 @@ def _tree_jobs(tier: str, patterns: dict[str, Any], ncmd: int, seed: int) -> lis
     """the same cases through the parser of the WHOLE command tree (0.17 s per build): all-valid presence
     combinations; quick: a seeded sample of options, thorough: every option"""
     valid_only = {fk: [p for p in ps if all(v != 0 for v in p.values())] for fk, ps in patterns.items()}
-    # per option: every source alone (does the value arrive at all?), all sources at once and env+file
-    # (who wins?) -- patterns naming "file" are not instantiable for options without a config key
+    # per option: every source alone (does the value arrive at all?), all three sources at once and env+file
+    # (who wins?); quick also cli+env -- patterns naming "file" are not instantiable for options without a key
     def keep(p: dict[str, int], thorough: bool) -> bool:
         n = sum(v == 1 for v in p.values())
         if thorough:
